@@ -110,5 +110,18 @@ CHECKS['C13'] = dict(
          'name forms are bounded stand-ins on real archives, cross-checked with an independent decoder.',
     note='trusted: file model (append/seek/read), CRC32 uninterpreted, bytes as z3 strings, pyvc; write_dirfile / '
          'load_dirfile and _get_file_parts are bounded-only; Cython iter_nullstr twin unverified.')
+CHECKS['C18'] = dict(
+    category='proof',
+    technique='contract-based deductive verification: pyvc proof of RawFileSystem._resolve_path for every input string '
+              '(z3 strings, abspath/join uninterpreted) + syntactic obligations that every file-system primitive receives '
+              'a resolved path; bounded directory-tree stand-in',
+    text='With path constraint on, _resolve_path is proved to return only the root itself or a path that starts with '
+         'root + separator, and to raise RootEscapeError exactly otherwise - for every input string, with os.path.abspath '
+         'and join left uninterpreted. Every open/os.walk/os.path.isfile in RawFileSystem is shown (AST) to take its '
+         'path from _resolve_path, and the root to be stored as os.path.abspath(path) and never reassigned. Real-tree '
+         'enumeration (sibling directory extending the root name, ".." chains, absolute prefixes, both separators, '
+         'chained filesystems with subfolder prefix) and packlist.unify_path are bounded stand-ins.',
+    note='trusted: abspath yields normalised absolute paths (so prefix containment means located inside), symlinks '
+         'outside the property, POSIX semantics; unify_path bounded-only.')
 _PENDING = 'not yet built in this session (planned, see DESIGN.md section 3); no check is registered so nothing is claimed'
 NOT_APPLICABLE = {f'C{i:02d}': _PENDING for i in range(1, 21) if f'C{i:02d}' not in CHECKS}
